@@ -683,6 +683,8 @@ fn stream_reconstruct(rng: &mut Rng, out: &mut Out, thorough: bool) {
             Local,
             Miss(packed::UncleBlock),
             Invalid(packed::UncleBlock),
+            /// status says received / stored / header only, but the block is neither in the orphan pool nor in the store
+            Gone(packed::UncleBlock, u8),
         }
         let mut uks: Vec<UK> = vec![];
         for k in 0..n_unc {
@@ -691,14 +693,15 @@ fn stream_reconstruct(rng: &mut Rng, out: &mut Out, thorough: bool) {
             uks.push(match rng.below(10) {
                 0..=3 => UK::Given(ub, 100 + k as u64),
                 4..=6 => UK::Local,
-                7 | 8 => UK::Miss(ub),
+                7 => UK::Miss(ub),
+                8 => UK::Gone(ub, rng.below(3) as u8),
                 _ => UK::Invalid(ub),
             });
         }
         let uncle_blocks: Vec<packed::UncleBlock> = uks
             .iter()
             .map(|u| match u {
-                UK::Given(b, _) | UK::Miss(b) | UK::Invalid(b) => b.clone(),
+                UK::Given(b, _) | UK::Miss(b) | UK::Invalid(b) | UK::Gone(b, _) => b.clone(),
                 UK::Local => genesis.as_uncle().data(),
             })
             .collect();
@@ -758,6 +761,13 @@ fn stream_reconstruct(rng: &mut Rng, out: &mut Out, thorough: bool) {
                 }
                 UK::Local => coq_uncles.push("(ULocal 0%N)".into()),
                 UK::Miss(_) => coq_uncles.push("UMiss".into()),
+                UK::Gone(b, k) => {
+                    use ckb_shared::block_status::BlockStatus;
+                    let st = match k { 0 => BlockStatus::BLOCK_RECEIVED, 1 => BlockStatus::BLOCK_STORED, _ => BlockStatus::HEADER_VALID };
+                    node.shared.insert_block_status(b.calc_header_hash(), st);
+                    out.count(match k { 0 => "uncle_received_but_not_in_orphan_pool", 1 => "uncle_stored_status_but_not_in_store", _ => "uncle_header_only" });
+                    coq_uncles.push("UMiss".into());
+                }
                 UK::Invalid(b) => {
                     node.shared.insert_block_status(b.calc_header_hash(), ckb_shared::block_status::BlockStatus::BLOCK_INVALID);
                     coq_uncles.push("UInvalid".into());
@@ -834,6 +844,9 @@ fn stream_reconstruct(rng: &mut Rng, out: &mut Out, thorough: bool) {
                 if ids != committed_ids {
                     out.violation("reconstruct_block returned a block whose transactions are not the committed ones", json!({"case": ctx, "got": ids, "committed": committed_ids}), None);
                 }
+                if uks.iter().any(|u| matches!(u, UK::Miss(_) | UK::Gone(..))) {
+                    out.violation("reconstruct_block returned a block although an uncle the compact block lists is not available (it must be reported missing)", json!({"case": ctx, "uncles": coq_uncles}), None);
+                }
                 if !same {
                     out.count("recon_block_header_rewritten");
                     out.violation(
@@ -863,7 +876,7 @@ fn stream_reconstruct(rng: &mut Rng, out: &mut Out, thorough: bool) {
                     if &want != is {
                         out.violation("Missing(indexes) is not exactly the set of positions without an available transaction", json!({"case": ctx, "got": is, "expected": want}), None);
                     }
-                    let want_u: Vec<usize> = uks.iter().enumerate().filter(|(_, u)| matches!(u, UK::Miss(_))).map(|(k, _)| k).collect();
+                    let want_u: Vec<usize> = uks.iter().enumerate().filter(|(_, u)| matches!(u, UK::Miss(_) | UK::Gone(..))).map(|(k, _)| k).collect();
                     if &want_u != us {
                         out.violation("Missing(uncles) is not exactly the set of unknown uncles", json!({"case": ctx, "got": us, "expected": want_u}), None);
                     }
